@@ -36,6 +36,7 @@ type Result struct {
 	Picks       int  // selects with several ready cases resolved by the scheduler
 	WrongBranch bool // the Go runtime took another ready case than asked for: the execution is to be discarded and repeated
 	Racy        int  // evaluations of an awaited select with more than one ready case (Go picks at random)
+	Unowned     int  // replays that met another situation than recorded (nondeterminism not owned by the scheduler)
 	RacyAt      int  // number of prefix points honoured before a racy divergence (-1: none)
 	Panics      []string
 	Names       []string // thread names by id
@@ -306,17 +307,17 @@ func (x *Exec) pick(self *thread) *thread {
 	i := len(x.res.Points)
 	if i < len(x.prefix) {
 		p.Choice = x.prefix[i]
-		if (p.Choice >= len(enabled) || (i < len(x.expectN) && x.expectN[i] != len(enabled))) && x.res.Racy > 0 {
-			// the run passed a select with several ready cases and Go chose differently this time:
-			// this is a legitimate execution of its own, continue it with default choices
+		if p.Choice >= len(enabled) || (i < len(x.expectN) && x.expectN[i] != len(enabled)) {
+			// the replay met another situation than the recorded one: some nondeterminism of the code under test is
+			// not owned by the scheduler (Go's random map iteration order when Engine.Close walks its streams, for
+			// instance). The run is a legitimate execution of its own: it continues with default choices, is checked
+			// like any other, and the search goes on from the honoured prefix; the scenario is reported as not
+			// exhaustively explored.
 			x.res.RacyAt = i
+			x.res.Unowned++
+			x.res.DivergeInfo = fmt.Sprintf("point %d: replay expects choice %d of %d, found %d enabled (%s)", i, p.Choice, exp(x.expectN, i), len(enabled), p.Kind)
 			x.prefix = x.prefix[:i]
 			p.Choice = 0
-		} else if p.Choice >= len(enabled) || (i < len(x.expectN) && x.expectN[i] != len(enabled)) {
-			x.res.Diverged = true
-			x.res.DivergeInfo = fmt.Sprintf("point %d: replay expects choice %d of %d, found %d enabled (%s)", i, p.Choice, exp(x.expectN, i), len(enabled), p.Kind)
-			x.res.Points = append(x.res.Points, p)
-			return nil
 		}
 	}
 	x.res.Points = append(x.res.Points, p)
@@ -424,11 +425,11 @@ func (x *Exec) choose(kind string, n int) int {
 	if i < len(x.prefix) {
 		p.Choice = x.prefix[i]
 		if p.Choice >= n || (i < len(x.expectN) && x.expectN[i] != n) {
-			x.res.Diverged = true
+			x.res.RacyAt = i
+			x.res.Unowned++
 			x.res.DivergeInfo = fmt.Sprintf("point %d: replay expects choice %d of %d, found a pick among %d (%s)", i, p.Choice, exp(x.expectN, i), n, kind)
-			x.res.Points = append(x.res.Points, p)
-			x.stall()
-			select {}
+			x.prefix = x.prefix[:i]
+			p.Choice = 0
 		}
 	}
 	x.res.Points = append(x.res.Points, p)
